@@ -3,20 +3,20 @@
 # on a clean copy of the worktree (no git stash: the stash is shared between worktrees):
 #  (1) baseline suite passes with the change, (2) demo fails with the change, (3) demo passes without it.
 set -u
-ID="$1"; D=/tmp/seed/$ID
+ID="$1"; D=${SEED_ROOT:-/tmp/seed}/$ID
 export GOFLAGS=-mod=mod GOPROXY=off
 cd "$D" || exit 2
 DEMO=$(git status --porcelain | grep 'zz_demo_test.go' | grep -v SEED | awk '{print $2}' | head -1)
 [ -n "$DEMO" ] || { echo "no demo test found"; exit 2; }
 [ -f SEED/patch.diff ] || { echo "no SEED/patch.diff"; exit 2; }
 PKG=./$(dirname "$DEMO")
-cp "$DEMO" /tmp/seed/$ID.demo.go
+cp "$DEMO" /tmp/seedtmp.$ID.demo.go
 git checkout -q -- . 
 rm -f "$DEMO"
 git apply SEED/patch.diff || { echo "patch.diff does not apply to a clean tree"; exit 2; }
 go build ./... || { echo "does not build"; exit 2; }
-go test -json -vet=off -count=1 ./... > /tmp/seed/$ID.suite.json 2>/dev/null
-S=$(python3 - /tmp/seed/$ID.suite.json <<'PY'
+go test -json -vet=off -count=1 ./... > /tmp/seedtmp.$ID.suite.json 2>/dev/null
+S=$(python3 - /tmp/seedtmp.$ID.suite.json <<'PY'
 import json,sys
 b=json.load(open('/root/.vp/BASELINE.json'))
 stable=set(b['stable_pass'])
@@ -31,19 +31,19 @@ if missing: print('baseline tests not passing:', missing[:5])
 PY
 )
 if [ -n "$S" ]; then echo "SUITE FAILS WITH CHANGE: $S"; SUITE=fail; else SUITE=pass; fi
-cp /tmp/seed/$ID.demo.go "$DEMO"
-go test ${DEMO_FLAGS:-} -vet=off -count=1 -run 'Demo|demo|ZZ|Seed' $PKG > /tmp/seed/$ID.with.log 2>&1; W=$?
+cp /tmp/seedtmp.$ID.demo.go "$DEMO"
+go test ${DEMO_FLAGS:-} -vet=off -count=1 -run 'Demo|demo|ZZ|Seed' $PKG > /tmp/seedtmp.$ID.with.log 2>&1; W=$?
 git apply -R SEED/patch.diff
-go test ${DEMO_FLAGS:-} -vet=off -count=1 -run 'Demo|demo|ZZ|Seed' $PKG > /tmp/seed/$ID.without.log 2>&1; WO=$?
+go test ${DEMO_FLAGS:-} -vet=off -count=1 -run 'Demo|demo|ZZ|Seed' $PKG > /tmp/seedtmp.$ID.without.log 2>&1; WO=$?
 git apply SEED/patch.diff
 echo "suite_with_change=$SUITE demo_with_change_exit=$W demo_without_change_exit=$WO"
 if [ "$SUITE" = pass ] && [ $W -ne 0 ] && [ $WO -eq 0 ]; then
-  mkdir -p /verif/seeded/$ID
-  cp SEED/patch.diff /verif/seeded/$ID/patch.diff
-  cp "$DEMO" /verif/seeded/$ID/zz_demo_test.go.txt
-  [ -f SEED/NOTES.md ] && cp SEED/NOTES.md /verif/seeded/$ID/NOTES.md
-  echo "$DEMO" > /verif/seeded/$ID/demo_path.txt
+  mkdir -p /verif/${SEED_OUT:-seeded}/$ID
+  cp SEED/patch.diff /verif/${SEED_OUT:-seeded}/$ID/patch.diff
+  cp "$DEMO" /verif/${SEED_OUT:-seeded}/$ID/zz_demo_test.go.txt
+  [ -f SEED/NOTES.md ] && cp SEED/NOTES.md /verif/${SEED_OUT:-seeded}/$ID/NOTES.md
+  echo "$DEMO" > /verif/${SEED_OUT:-seeded}/$ID/demo_path.txt
   echo CONFIRMED
 else
-  echo NOT-CONFIRMED; tail -5 /tmp/seed/$ID.with.log; tail -5 /tmp/seed/$ID.without.log
+  echo NOT-CONFIRMED; tail -5 /tmp/seedtmp.$ID.with.log; tail -5 /tmp/seedtmp.$ID.without.log
 fi
